@@ -31,7 +31,7 @@ RULE = (
     "opener x repeated unit x terminator measured at n=8..28 and 1k..8k; non-trivial = family whose "
     "measurements completed."
 )
-RULE += " added since: documents wrapped in def/block/call bodies, filtered <%text filter=..> segments; growth families with lone CR / CR+x / backslash terminators and '%', ' \\t% ', '  ##' openers; every lexing is bounded by a 20 s CPU-time (ITIMER_VIRTUAL) watchdog whose firing is reported as lexing-does-not-terminate."
+RULE += " added since: documents wrapped in def/block/call bodies, filtered <%text filter=..> segments; growth families with lone CR / CR+x / backslash terminators and '%', ' \\t% ', '  ##' openers; every lexing is bounded by a 20 s CPU-time (ITIMER_VIRTUAL) watchdog whose firing is reported as lexing-does-not-terminate. 13 hostile characters (NUL, control characters, BOM, LS/PS, a lone surrogate ...) inside 21 directive frames and literal text."
 ASSUMPTIONS = [
     "the harness's own copies of the consumption grammar (mk/lexmon.py) and the reference scanner "
     "ref_render() state what each directive consumes",
